@@ -94,6 +94,19 @@ def run(tier, replay_file=None):
             hb = _r.Random(common.seed() + 2 + int(compress)).sample(hb, min(len(hb), 100))
         if not replay_set(R, hb, compress, known_total):
             break
+    # a session ended (the instance is externalised without a session), then every restore path, then every kind of request
+    SHAPE3 = ('MC_Ended == LET n == Len(hist\') h == hist\'[n] IN\n'
+              '   /\\ (n = 1 => h.op = "Start") /\\ (n = 2 => h.op = "Begin" /\\ h.status = 200) /\\ (n = 3 => h.op = "Step") /\\ (n = 4 => h.op = "End")\n'
+              '   /\\ (n = 5 => h.op \\in {"Crash", "LoadState", "Tick"}) /\\ (n \\in {6, 7} => h.op \\in {"Results", "Step", "Begin", "End"})\n')
+    for compress in (False, True):
+        c = consts('{"i1"}', 4, DEV, compress, ops='{"Start","Begin","Step","End","Results","Tick","LoadState","Crash"}', timeouts='{2}', ticks='{3}', kv='{0,2}', sv='{0,3}')
+        c["Scen"] = '{"base"}'
+        he, _ = gen.histories("Server", c, 7, defs=SHAPE3, extra_cfg={"action_constraints": ["MC_Ended"]})
+        R.cov["ended_session_then_restore_histories_%s" % ("compressed" if compress else "plain")] = len(he)
+        if quick:
+            he = _r.Random(common.seed() + 4 + int(compress)).sample(he, min(len(he), 100))
+        if not replay_set(R, he, compress, known_total):
+            break
     R.cov["known_matches"] = known_total
     R.sample([{a: b for a, b in h.items() if a not in ("rows", "want", "row")} for h in hs[0]])
     f = R.findings.open_for("C19") + [e for e in R.findings.entries if e.get("status") == "open" and "C19" in e.get("also", [])]
